@@ -48,7 +48,17 @@ def run(ctx):
         for e in r[1].split(" ;; "):
             parts = e.split("|", 2)
             code, site, detail = parts[0], parts[1] if len(parts) > 1 else "", parts[2] if len(parts) > 2 else ""
-            shape = classify(detail) if code == "assign-mismatch" else ("" if code in ("unused-variable", "undeclared", "redeclared") else detail)
+            if code == "assign-mismatch":
+                shape = classify(detail)
+            elif code in ("unused-variable", "redeclared"):
+                shape = ""
+            elif code == "undeclared":
+                # which kind of generated name is missing (type of a dyn struct, helper, temporary, …)
+                shape = ("dyn-struct" if "dyn__" in detail else "closure" if "closure_env" in detail else "other")
+            elif code in ("no-such-field", "literal-of-undeclared-type", "field-of-non-struct"):
+                shape = ("dyn-struct" if "dyn__" in detail else "closure-env" if "closure_env" in detail else "other")
+            else:
+                shape = detail
             sig = {"oracle": "gocheck", "code": code, "shape": shape}
             key = (code, shape)
             codes[code] = codes.get(code, 0) + 1
